@@ -31,6 +31,14 @@ def run(out, tier, seed):
                       "via": [rng.random() < 0.8 for _ in calls]})
     for cls in ["K", "Sub", "E", "U"]:
         cases.append({"id": len(cases), "src": "property", "target": cls, "calls": objs, "method": "prop", "path": "direct"})
+    # the entry event of an object-bound method; two object-bound levels in one path
+    for _ in range(30 if tier == "quick" else 400):
+        calls = [rng.choice(objs) for _ in range(rng.randint(1, 4))]
+        cases.append({"id": len(cases), "src": "enter", "target": rng.choice(objs[:6]), "calls": calls,
+                      "method": rng.choice(["meth", "tree"]), "path": "enter", "via": [True] * len(calls)})
+        calls = [rng.choice(["k1", "k2", "s1", "e1", "e3"]) for _ in range(rng.randint(1, 3))]
+        cases.append({"id": len(cases), "src": "nested2", "target": rng.choice(["k1", "k2", "e1"]), "target2": rng.choice(["k2", "s1", "e3"]),
+                      "calls": calls, "method": "tree", "path": "nested2", "via": [True] * len(calls)})
     cin, cout = os.path.join(work, "rc.json"), os.path.join(work, "rt.json")
     json.dump(cases, open(cin, "w"))
     core.run_driver("harness.drivers.recv_driver", [cin, cout])
@@ -42,7 +50,8 @@ def run(out, tier, seed):
     for tup in r2.tagged("FAIL"):
         c = by[tup[1]]
         seen.add(c["src"])
-        out.judge({"clause": tup[2], "why": tup[3]}, {"selector": c["text"], "calls": c["calls"], "events": c["events"], "outcome": c["outcome"]})
+        out.judge({"clause": tup[2], "why": tup[3], "path": c["path"] if c["path"] in ("enter", "nested2") else ""},
+                  {"selector": c["text"], "calls": c["calls"], "events": c["events"], "outcome": c["outcome"]})
     for s in sigs:
         if "witness:" + s not in seen:
             out.drift.append(f"signature {s} predicted by the receiver model did not reproduce")
